@@ -19,6 +19,14 @@ Generated + hand-written FPy programs of the FPCore-expressible subset are compi
      rounded constant; the property set in force at that constant in the core (top-level properties
      updated by every enclosing `!`) must denote the context of the innermost enclosing `with` of the
      source (or the function's declared context, or none);
+ (e) coverage-driven corpus: `corpus/c12_nodes.py` puts EVERY expression node kind of the back end (each unary / binary / ternary / n-ary operator,
+     constants, list max / min / sum / len / indexing / slices / comprehensions / enumerate / zip / any / all, tuple projections, conditional
+     expressions, comparison chains, literals of every spelling incl. integers not representable in the enclosing format) directly under
+     `fp.round` and bare, under a context narrower / wider than the one its operands were computed in; hand-written cores run every arm of
+     the reader (each property alone, `!` around literals / integers / operators, let / let* / while / while* / for / for* / tensor / tensor* /
+     array / ref / size / dim, every operator and constant) and are also compiled BACK (reader then compiler); programs the compiler must
+     refuse and cores the reader cannot run execute the error arms.  coverage.py (branch=True) measures which functions / lines / branches of
+     fpy2/backend/fpc.py, fpy2/frontend/fpc.py, fpy2/fpc_context.py and the bundling / unpacking passes the run executed: rep.cov['translator_coverage'];
  (d) the property table: for every context of every family `from_context` either refuses or returns
      properties that `to_context` — and titanfp's own reading of them — maps back to the same context;
      the Lean table (`fpcprops`) must agree with the real one.
@@ -381,7 +389,9 @@ def _ast_walk(n):
         if isinstance(v, A.Ast): yield from _ast_walk(v)
 
 def shape_findings(fn) -> set:
-    """C12-looptarget: a `for` whose body assigns its target; C12-looptarget2: a `for` whose target is defined before the loop and
+    """(the other recorded shapes — derived constants, comprehensions with several generators / tuple targets, nested tuple targets, `!=` chains,
+    lists longer than a tiny format can count — are recognised at the end of the loop below)
+    C12-looptarget: a `for` whose body assigns its target; C12-looptarget2: a `for` whose target is defined before the loop and
     read after it; C12-negrange: a `range` with a bound that is not a literal (fails when it is negative at run time);
     C12-readwhilecond: a `while` whose condition contains a conditional expression (the reader evaluates it once)"""
     from fpy2.ast import fpyast as A
@@ -410,13 +420,63 @@ def shape_findings(fn) -> set:
             if before and after: out.add('C12-looptarget2')
             if isinstance(n.iterable, (A.Range1, A.Range2, A.Range3)) and not all(literal(a) for a in n.iterable.args): out.add('C12-negrange')
         if isinstance(n, A.WhileStmt) and any(isinstance(m, A.IfExpr) for m in _ast_walk(n.cond)): out.add('C12-readwhilecond')
+        if type(n).__name__ in DERIVED_CONSTS: out.add('C12-derivedconst')
+        if isinstance(n, A.ListComp):
+            if len(n.targets) >= 2: out.add('C12-listcomp2')
+            if any(isinstance(t, A.TupleBinding) for t in n.targets): out.add('C12-tuplebindpos')
+        if isinstance(n, A.Assign) and isinstance(n.target, A.TupleBinding) and any(isinstance(t, A.TupleBinding) for t in n.target.elts):
+            out.add('C12-tuplebindpos')
+        if isinstance(n, A.ContextStmt) and any(isinstance(m, (A.ForStmt, A.ListComp, A.Len, A.Sum, A.AMax, A.AMin)) for m in _ast_walk(n.body)):
+            try:
+                from langexport import Exporter
+                ex = Exporter(); ex.env = fn.ast.env
+                cv = n.ctx.val if isinstance(n.ctx, A.ForeignVal) else ex.static_py(n.ctx)
+            except Exception: cv = None
+            if isinstance(cv, fp.IEEEContext) and cv.pmax <= 5: out.add('C12-sizeround')
+        if isinstance(n, A.Compare) and any(a == b == A.CompareOp.NE for a, b in zip(n.ops, n.ops[1:])): out.add('C12-neqnary')
     return out
 
-def pick_finding(shapes, kind, observed=None):
+DERIVED_CONSTS = {'ConstPi_2': 'PI_2', 'ConstPi_4': 'PI_4', 'Const1_Pi': 'M_1_PI', 'Const2_Pi': 'M_2_PI', 'Const2_SqrtPi': 'M_2_SQRTPI',
+                  'ConstLog2E': 'LOG2E', 'ConstLog10E': 'LOG10E'}
+
+def core_shape_findings(text: str) -> set:
+    """shapes of recorded defects in a hand-written core"""
+    import re
+    out = set()
+    if any(re.search(r'(?<![A-Z0-9_])' + c + r'(?![A-Z0-9_])', text) for c in DERIVED_CONSTS.values()): out.add('C12-derivedconst')
+    if re.search(r'\(!=\s+[^()\s]+\s+[^()\s]+\s+[^()\s]', text): out.add('C12-neqnary')
+    if re.search(r'\((fmax|fmin)\s', text): out.add('C12-readfmax')
+    return out
+
+def canon_values(text):
+    """the finite numbers of a canonical result `ok (n fin s c e)` / `(t …)`, in order; None if it has anything else"""
+    import re
+    if not text.startswith('ok '): return None
+    vals = []
+    for m in re.finditer(r'\(n ([^()]*)\)', text):
+        f = m.group(1).split()
+        if f[0] == 'zero': vals.append(Fraction(0))
+        elif f[0] == 'fin': vals.append((-1) ** int(f[1]) * Fraction(int(f[2])) * Fraction(2) ** int(f[3]))
+        else: return None
+    return vals
+
+def canon_close(a, b, rel=Fraction(1, 64)) -> bool:
+    """two results of the same shape whose numbers differ by a rounding slip only"""
+    va, vb = canon_values(a or ''), canon_values(b or '')
+    if va is None or vb is None or len(va) != len(vb): return False
+    return all(abs(x - y) <= rel * max(abs(x), abs(y)) for x, y in zip(va, vb))
+
+def pick_finding(shapes, kind, observed=None, expected=None):
     """the finding a violation of this kind ('eval': the core evaluates differently; 'reread': the re-read function does) on a program
     of these shapes is recorded under, or None"""
     if 'C12-looptarget' in shapes: return 'C12-looptarget'
     if 'C12-looptarget2' in shapes: return 'C12-looptarget2'
+    for fid in ('C12-listcomp2', 'C12-tuplebindpos', 'C12-sizeround', 'C12-neqnary'):
+        if fid in shapes: return fid
+    # the reader reads fmax / fmin (the other operand if one is NaN) as FPy max / min (NaN): only a NaN result is that defect
+    if 'C12-readfmax' in shapes and expected is not None and 'nan' in expected: return 'C12-readfmax'
+    # a derived constant of the interpreter is off by a rounding slip: only a NEARBY value is that defect
+    if 'C12-derivedconst' in shapes and observed is not None and expected is not None and canon_close(observed, expected): return 'C12-derivedconst'
     if kind == 'reread' and 'C12-readwhilecond' in shapes: return 'C12-readwhilecond'
     if 'C12-negrange' in shapes and observed is not None and not observed.startswith('ok'): return 'C12-negrange'
     return None
@@ -528,7 +588,9 @@ def core_expr(e) -> str:
         if e.value in ('TRUE', 'FALSE', 'NAN', 'INFINITY'): return f'(const {e.value})'
         raise Unsupported(f'constant {e.value}')
     if isinstance(e, (fpc.Decnum, fpc.Integer, fpc.Rational, fpc.Digits, fpc.Hexnum)):
-        q = num_q(e); return f'(num Q{q.numerator}/{q.denominator})'
+        q = num_q(e)
+        if q == 0 and str(getattr(e, 'value', '')).strip().startswith('-'): raise Unsupported('literal -0')      # (the tagged form has no signed zero)
+        return f'(num Q{q.numerator}/{q.denominator})'
     if isinstance(e, fpc.Ctx): return f'(ann {props_sexp(e.props)} {X(e.body)})'
     if isinstance(e, fpc.If): return f'(if {X(e.cond)} {X(e.then_body)} {X(e.else_body)})'
     if isinstance(e, fpc.Let):
@@ -554,12 +616,14 @@ def core_expr(e) -> str:
     if isinstance(e, fpc.Neg): return f'(op neg {X(e.children[0])})'
     if isinstance(e, fpc.UnknownOperator): raise Unsupported('call')
     if isinstance(e, fpc.NaryExpr):
+        if e.name == '!=' and len(e.children) > 2: raise Unsupported('n-ary !=')      # (pairwise in FPCore; the Lean evaluator has the binary form)
         if e.name in CMPS: return f'(cmp {CMPS[e.name]} ' + ' '.join(X(c) for c in e.children) + ')'
         if e.name in PREDS: return f'(pred {e.name} {X(e.children[0])})'
         if e.name in OPS: return f'(op {OPS[e.name]} ' + ' '.join(X(c) for c in e.children) + ')'
     raise Unsupported(f'core expression {type(e).__name__}:{getattr(e, "name", "")}')
 
 def fpceval_line(core, args, fuel=20000) -> str:
+    if any(isinstance(d, str) for _, _, shape in core.inputs for d in (shape or [])): raise Unsupported('named tensor dimension')
     params = ' '.join(name for name, _, _ in core.inputs)
     return f'fpceval {fuel} ({params}) {props_sexp(core.props)} {core_expr(core.e)} (' + ' '.join(arg_sexp(a) for a in args) + ')'
 
@@ -585,7 +649,9 @@ def model_program(fn) -> str:
     def E(e):
         if isinstance(e, A.Var): return f'(var {e.name})'
         if isinstance(e, A.Round) and isinstance(e.arg, A.RationalVal):
-            q = Fraction(e.arg.as_rational()); return f'(lit Q{q.numerator}/{q.denominator})'
+            q = Fraction(e.arg.as_rational())
+            if q == 0 and str(getattr(e.arg, 'val', '')).startswith('-'): raise Unsupported('literal -0')
+            return f'(lit Q{q.numerator}/{q.denominator})'
         if isinstance(e, A.Round): return f'(op round {E(e.arg)})'
         if isinstance(e, A.Fma): return f'(op fma {E(e.first)} {E(e.second)} {E(e.third)})'
         for cls, nm in BIN.items():
@@ -670,11 +736,66 @@ def gen_args(R, has_list, n, round_to=None):
         out.append(tuple(a))
     return out
 
+# ------------------------------------------------------------------ code coverage of the translators (coverage.py, branch=True)
+COVERED_FILES = ['fpy2/backend/fpc.py', 'fpy2/frontend/fpc.py', 'fpy2/fpc_context.py', 'fpy2/transform/if_bundling.py',
+                 'fpy2/transform/while_bundling.py', 'fpy2/transform/for_bundling.py', 'fpy2/transform/for_unpack.py',
+                 'fpy2/transform/rename_target.py']
+
+def coverage_start():
+    try:
+        import coverage
+    except Exception:
+        return None
+    files = [str(REPO / f) for f in COVERED_FILES if (REPO / f).exists()]
+    cov = coverage.Coverage(branch=True, include=files, data_file=None, config_file=False)
+    cov.start()
+    return cov
+
+def coverage_finish(rep, cov, tmp):
+    """which functions / lines / branches of the translators this run never executed -> rep.cov['translator_coverage']"""
+    if cov is None:
+        rep.cov['translator_coverage'] = 'coverage.py not available'; return
+    import json as _json
+    cov.stop()
+    out = os.path.join(tmp, 'coverage.json')
+    try: cov.json_report(outfile=out, ignore_errors=True)
+    except Exception as e:
+        rep.cov['translator_coverage'] = f'no data: {type(e).__name__}: {e}'; return
+    data = _json.load(open(out))
+    res = {'percent_covered': round(data['totals']['percent_covered'], 2), 'covered_branches': data['totals'].get('covered_branches'),
+           'num_branches': data['totals'].get('num_branches'), 'files': {}, 'functions_never_executed': [], 'functions_partly_executed': {}}
+    for fname, fd in data['files'].items():
+        short = fname[len(str(REPO)) + 1:] if fname.startswith(str(REPO)) else fname
+        res['files'][short] = {'percent_covered': round(fd['summary']['percent_covered'], 2), 'missing_lines': len(fd['missing_lines']),
+                               'missing_branches': len(fd.get('missing_branches', []))}
+        for fn, fr in (fd.get('functions') or {}).items():
+            if not fn: continue      # module level (imports, definitions: executed before the measurement starts)
+            sm = fr['summary']
+            if sm['num_statements'] == 0: continue
+            if sm['covered_lines'] == 0: res['functions_never_executed'].append(f'{short}:{fn}')
+            elif fr['missing_lines'] or fr.get('missing_branches'):
+                res['functions_partly_executed'][f'{short}:{fn}'] = {'missing_lines': fr['missing_lines'][:40],
+                                                                    'missing_branches': [list(b) for b in fr.get('missing_branches', [])][:40]}
+    st = [fr['summary'] for fd in data['files'].values() for fn, fr in (fd.get('functions') or {}).items() if fn]
+    tot = sum(x['num_statements'] for x in st); covd = sum(x['covered_lines'] for x in st)
+    br = sum(x.get('num_branches', 0) for x in st); brc = sum(x.get('covered_branches', 0) for x in st)
+    res['function_statements'] = tot; res['function_statements_executed'] = covd
+    res['percent_of_function_statements_executed'] = round(100.0 * covd / max(tot, 1), 2)
+    res['percent_of_function_branches_executed'] = round(100.0 * brc / max(br, 1), 2)
+    res['note'] = ('percent_covered counts the module-level statements (imports, definitions: run before the measurement starts) as missing; '
+                   'the function-level percentages do not. What is left: error arms that no program reaches through compile()/from_fpcore '
+                   '(internal `unreachable` checks, shapes the passes before them remove), entry points nobody calls')
+    nf = sum(1 for fd in data['files'].values() for fn, fr in (fd.get('functions') or {}).items() if fn and fr['summary']['num_statements'])
+    res['functions_total'] = nf
+    res['functions_fully_executed'] = nf - len(res['functions_never_executed']) - len(res['functions_partly_executed'])
+    rep.cov['translator_coverage'] = res
+
 def run(rep, tier, seed):
     R = Prng(seed, 'C12')
     nprog = 36 if tier == 'quick' else 500
     ninputs = 6 if tier == 'quick' else 14
     tmp = tempfile.mkdtemp(prefix='fpyverif_c12_', dir='/var/tmp')
+    cov_meter = coverage_start()
     rep.cov.update({'programs': 0, 'compiled': 0, 'rejected': 0, 'scope_sites_checked': 0, 'reread_in_memory': 0, 'reread_text': 0,
                     'titanfp_evaluations': 0, 'lean_fpcore_evaluations': 0, 'reference_evaluator_deviations': []})
     lean_lines, lean_meta = [], []        # fpceval lines (core on the Lean FPCore evaluator)
@@ -705,6 +826,42 @@ def run(rep, tier, seed):
             fn = getattr(bmod, name)
             progs.append(('bundle:' + name, src, fn, {}, False, False, fn.ast.ctx, fixed))
         rep.cov['bundling_corpus_programs'] = len(bundles)
+        # every expression node kind as operand of round / bare, under narrower and wider contexts (corpus/c12_nodes.py)
+        ncorp = load_module(os.path.join(os.path.dirname(os.path.abspath(__file__)), 'corpus', 'c12_nodes.py'), f'fpyverif_c12_{seed}_nodes_gen')
+        nodes = ncorp.node_programs(thorough=(tier != 'quick'))
+        npath = os.path.join(tmp, 'nodes.py')
+        with open(npath, 'w') as fh: fh.write('import fpy2 as fp\n\n' + '\n'.join(s_ for _, s_, _, _ in nodes))
+        try:
+            nmod = load_module(npath, f'fpyverif_c12_{seed}_nodes')
+        except Exception as e:
+            nmod = None
+            rep.violation(f'the front end rejects the node corpus: {type(e).__name__}: {str(e)[:200]}', {'program': 'node-corpus', 'source': None, 'core': None, 'args': None, 'fpy': None, 'fpcore': None, 'finding': None})
+        for name, src, fixed, raw in (nodes if nmod is not None else []):
+            fn = getattr(nmod, name)
+            progs.append(('node:' + name, src, fn, {}, False, raw, fn.ast.ctx, fixed))
+        rep.cov['node_corpus_programs'] = len(nodes)
+        # programs with a list parameter; programs the compiler must refuse (one per error arm of the back end)
+        xsrc = 'import fpy2 as fp\n\n' + '\n'.join(s_ for _, s_, _ in ncorp.LIST_ARG_PROGRAMS) + '\n' + '\n'.join(s_ for _, s_, _ in ncorp.REJECTS)
+        xpath = os.path.join(tmp, 'nodes_extra.py')
+        with open(xpath, 'w') as fh: fh.write(xsrc)
+        xmod = load_module(xpath, f'fpyverif_c12_{seed}_nodes_extra')
+        for name, src, fixed in ncorp.LIST_ARG_PROGRAMS:
+            fn = size_lists(getattr(xmod, name))
+            progs.append(('node:' + name, src, fn, {}, True, False, fn.ast.ctx, fixed))
+        rep.cov['compiler_refusals_expected'] = len(ncorp.REJECTS); rep.cov['compiler_refusals_observed'] = 0
+        from fpy2.backend.backend import CompileError
+        for name, src, raw in ncorp.REJECTS:
+            fn = getattr(xmod, name)
+            rep.cov['programs'] += 1
+            try:
+                compile_real(fn, raw)
+                rep.count('refusal-corpus:now-compiles:' + name)        # (accepted: nothing to judge here, the node corpus covers what compiles)
+            except (CompileError, NotImplementedError) as e:
+                rep.cov['compiler_refusals_observed'] += 1
+                rep.count('refusal-corpus:' + type(e).__name__)
+            except Exception as e:
+                rep.count('refusal-corpus:crash:' + type(e).__name__)
+                if len(rep.notes) < 8: rep.notes.append(f'the compiler does not refuse {name} cleanly: {type(e).__name__}: {str(e)[:120]}')
         for pi in range(nprog):
             loopfree = pi % 3 == 0; subset = pi % 3 == 1
             G = Gen12(R, raw_ints=(R.random() < 0.5 and not loopfree and not subset), loopfree=loopfree, subset=subset)
@@ -789,7 +946,7 @@ def run(rep, tier, seed):
             except Unsupported as e:
                 core_line_ok = False; rep.count('lean-fpcore-unsupported:' + str(e)[:40])
             # ---- (a)/(b) evaluation
-            arglist = gen_args(R, has_list, ninputs, declared if isinstance(declared, fp.Context) else None) if fixed is None else (list(fixed) + gen_args(R, False, 1))
+            arglist = gen_args(R, has_list, ninputs, declared if isinstance(declared, fp.Context) else None) if fixed is None else (list(fixed) + gen_args(R, has_list, 1))
             for args in arglist:
                 F = observe(lambda: fn(*[list(a) if isinstance(a, list) else a for a in args]))
                 if not F.startswith('ok'):
@@ -810,7 +967,7 @@ def run(rep, tier, seed):
                     rep.cov['evaluations'] += 1
                     if Gv != F:
                         rep.violation(f're-read ({how}): compile + Function.from_fpcore changes the result: f(*args) = {F[:70]}, re-read = {Gv[:70]}',
-                                      dict(base, args=repr(args), fpy=F, fpcore=T, reread=Gv, reread_source=g.format(), finding=pick_finding(shapes, 'reread', Gv)))
+                                      dict(base, args=repr(args), fpy=F, fpcore=T, reread=Gv, reread_source=g.format(), finding=pick_finding(shapes, 'reread', Gv, F)))
                     if how == 'memory' and core_line_ok and Gv.startswith('ok'):
                         read_lines.append('fpcread' + fpceval_line(core, args)[len('fpceval'):]); read_meta.append((label, text, args, Gv))
                     if how == 'memory' and exported is not None and Gv.startswith('ok'):
@@ -822,9 +979,40 @@ def run(rep, tier, seed):
                 rep.sample({'program': label, 'source': src, 'core': text})
 
         # ---- hand-written cores through the reader
-        for text in READ_CORES:
-            core = fpcparser.compile(text)[0]
-            base = {'program': 'read:' + text, 'source': None, 'core': text, 'finding': None}
+        rep.cov['reader_refusals_expected'] = len(ncorp.READER_REFUSALS); rep.cov['reader_refusals_observed'] = 0
+        for text in ncorp.READER_REFUSALS:
+            rep.cov['programs'] += 1
+            try:
+                core = fpcparser.compile(text)[0]
+                g = Function.from_fpcore(core, ignore_unknown=True)
+                val = observe(lambda: g(1.5, 0.25))
+            except Exception as e:
+                rep.cov['reader_refusals_observed'] += 1; rep.count('reader-refusal:at-read:' + type(e).__name__); continue
+            if not val.startswith('ok'):
+                rep.cov['reader_refusals_observed'] += 1; rep.count('reader-refusal:at-call:' + val.split(':')[0][:30])
+                # the function cannot run in FPy, but compiling it back must give the core's meaning again (titanfp knows more formats)
+                try:
+                    core2 = timed(lambda: FPCoreCompiler(unsafe_int_cast=True).compile(g), 20)
+                    T = observe(lambda: titan.interpret(core, [to_mpmf(1.5), to_mpmf(0.25)])); T2 = observe(lambda: titan.interpret(core2, [to_mpmf(1.5), to_mpmf(0.25)]))
+                    rep.cov['evaluations'] += 1
+                    if T.startswith('ok') and T2.startswith('ok') and T != T2:
+                        rep.violation(f'reader then compiler: the core evaluates to {T[:60]}, the core compiled from the function read from it to {T2[:60]} (titanfp)',
+                                      {'program': 'read:' + text, 'source': None, 'core': text, 'core2': core2.sexp, 'args': '(1.5, 0.25)', 'fpy': None, 'fpcore': T, 'finding': None})
+                except Exception as e: rep.count('reader-refusal:then-compiler:' + type(e).__name__)
+            else:
+                T = observe(lambda: titan.interpret(core, [to_mpmf(1.5), to_mpmf(0.25)]))
+                if T != val:
+                    rep.violation(f'reader: a core with properties / operators FPy does not know is read as a function returning {val[:60]} (titanfp: {T[:60]})',
+                                  {'program': 'read:' + text, 'source': None, 'core': text, 'args': '(1.5, 0.25)', 'fpy': val, 'fpcore': T, 'finding': None})
+        read_cores = [(t, None) for t in READ_CORES] + [(t, None) for t in ncorp.READER_CORES] + [(t, n) for t, n in ncorp.LIST_CORES]
+        rep.cov['reader_cores'] = len(read_cores)
+        for text, nlist in read_cores:
+            try: core = fpcparser.compile(text)[0]
+            except Exception as e:
+                rep.count('reader-core-unparsable:' + type(e).__name__)
+                if len(rep.notes) < 8: rep.notes.append(f'titanfp cannot parse the hand-written core {text}: {type(e).__name__}: {str(e)[:100]}')
+                continue
+            base = {'program': 'read:' + text, 'source': None, 'core': text, 'finding': None, 'shapes': sorted(core_shape_findings(text))}
             rep.cov['programs'] += 1
             try: g = Function.from_fpcore(core, ignore_unknown=True)
             except Exception as e:
@@ -834,20 +1022,43 @@ def run(rep, tier, seed):
             if 'precision' in core.props:
                 try: top = FPCoreContext(**{k: data_py(v) for k, v in core.props.items() if k in ('precision', 'round')}).to_context()
                 except Exception: top = None
-            for args in gen_args(R, False, ninputs, top):
-                Gv = observe(lambda: g(*args))
+            # the other round trip: compile the function just read and evaluate THAT core
+            core2 = None
+            try: core2 = timed(lambda: FPCoreCompiler(unsafe_int_cast=True).compile(g), 20)
+            except Exception as e: rep.count('reader-then-compiler:rejected:' + type(e).__name__)
+            arglists = gen_args(R, False, ninputs if text in READ_CORES else min(ninputs, 4), top)
+            if 'C12-readfmax' in base['shapes']: arglists = [(float('nan'), 2.0)] + arglists      # (pinned: the recorded defect shows on a NaN operand)
+            if nlist is not None: arglists = [([a[0], a[1], a[0]][:nlist], a[1]) for a in arglists]
+            for args in arglists:
+                Gv = observe(lambda: g(*[list(a) if isinstance(a, list) else a for a in args]))
                 T = observe(lambda: titan.interpret(core, [to_mpmf(a) for a in args]))
                 rep.cov['titanfp_evaluations'] += 1; rep.cov['evaluations'] += 1
                 rep.distinct.add((text, repr(args)))
-                lean_lines.append(fpceval_line(core, args)); lean_meta.append((dict(base, reader=True, reread_source=g.format()), args, Gv, T))
+                rbase = dict(base, reader=True, reread_source=g.format())
+                if core2 is not None and Gv.startswith('ok'):
+                    T2 = observe(lambda: titan.interpret(core2, [to_mpmf(a) for a in args]))
+                    rep.cov['evaluations'] += 1
+                    if not T2.startswith('ok'): rep.count('reader-then-compiler:titanfp:' + T2.split(':')[0][:30])
+                    elif T2 != Gv:
+                        # judged like every other core: with the Lean FPCore evaluator as the second opinion (titanfp alone deviates at
+                        # ties on the subnormal boundary, overflow under directed rounding, nearbyint of ties)
+                        b2 = dict(rbase, program=rbase['program'] + ' [reader then compiler]', core=core2.sexp, original_core=text)
+                        try: lean_lines.append(fpceval_line(core2, args)); lean_meta.append((b2, args, Gv, T2))
+                        except Unsupported:
+                            if 'inf' in T2 and 'inf' not in Gv: rep.count('reader-then-compiler:not-judged:titanfp-overflow')
+                            else: judge(rep, b2, args, Gv, T2, None)
+                try: line = fpceval_line(core, args)
+                except Unsupported as e:
+                    rep.count('lean-fpcore-unsupported:' + str(e)[:40]); judge(rep, rbase, args, Gv, T, None); continue
+                lean_lines.append(line); lean_meta.append((rbase, args, Gv, T))
                 if Gv.startswith('ok'):
-                    read_lines.append('fpcread' + fpceval_line(core, args)[len('fpceval'):]); read_meta.append(('read:' + text, text, args, Gv))
+                    read_lines.append('fpcread' + line[len('fpceval'):]); read_meta.append(('read:' + text, text, args, Gv))
 
         # ---- Lean FPCore evaluator on every core (second FPCore semantics + correspondence of the model with titanfp)
         outs = run_driver(lean_lines)
         rep.cov['lean_fpcore_evaluations'] = len(lean_lines)
         for (base, args, F, T), L in zip(lean_meta, outs):
-            if L.startswith(('bad-', 'err outOfFuel')):
+            if L.startswith(('bad-', 'err outOfFuel', 'err NotImplementedError')):
                 rep.count('lean-fpcore:' + L.split()[0] + (' ' + L.split()[1] if L.startswith('err') else '')); L = None
             judge(rep, base, args, F, T, L)
         # ---- the MODEL of the compiler (compileFun) + the Lean FPCore evaluator against the real function
@@ -865,7 +1076,8 @@ def run(rep, tier, seed):
             if m.startswith(('bad-', 'err outOfFuel')): rep.count('reader-model:' + m[:20]); continue
             rep.cov['reader_model_in_subset'] += 1
             mm = m.replace('(l ', '(t ').replace('(l)', '(t )')
-            if mm != Gv.replace('(t)', '(t )'):
+            if mm != Gv.replace('(t)', '(t )') and 'nan' in Gv and 'C12-readfmax' in core_shape_findings(text): rep.count('reader-model:fmax-nan (C12-readfmax)')
+            elif mm != Gv.replace('(t)', '(t )'):
                 rep.broke('correspondence', 'C12.read-model', f'program={label}\ncore={text}\nargs={args!r}\nimpl Function.from_fpcore(core)(*args)={Gv}\nmodel readFun + eval={m}')
         # ---- the model compiler WITH loops (compileFunL, proved sound in Props/C12.lean): its output TEXT against the real compiler's
         outs = run_driver(tie_lines)
@@ -874,14 +1086,17 @@ def run(rep, tier, seed):
         outs = run_driver(lang_lines)
         rep.cov['traces_model_vs_impl'] = len(lang_lines)
         for (label, args, Gv, g), m in zip(lang_meta, outs):
-            if m.startswith('bad-'): rep.count('lang-model-unsupported'); continue
+            if m.startswith(('bad-', 'err NotImplementedError')): rep.count('lang-model-unsupported'); continue
             mm = m.replace('(l ', '(t ').replace('(l)', '(t )')
             if mm != Gv.replace('(t)', '(t )'):
                 rep.broke('correspondence', 'C12.eval-reread', f'program={label}\n{g.format()}\nargs={args!r}\nimpl ={Gv}\nmodel={m}')
         table_check(rep)
+        coverage_finish(rep, cov_meter, tmp)
     finally:
         shutil.rmtree(tmp, ignore_errors=True)
-    rep.cov['rule'] = ('hand-written scoping templates (statement after an inner with, sequential withs, three-deep nesting, with inside loop/branch, declared '
+    rep.cov['rule'] = ('node corpus: every expression node kind under round / bare x narrower / nested / wider context (corpus/c12_nodes.py), reader cores for every reader arm, '
+                       'refusal corpora for the error arms, bundling corpus (corpus/c12_bundles.py); '
+                       'hand-written scoping templates (statement after an inner with, sequential withs, three-deep nesting, with inside loop/branch, declared '
                        'context, range with step, sum/index/len) + restricted random programs (IEEE binary16/32/64/(6,20) x six rounding modes; nested and sequential '
                        '`with` followed by statements; rounded constants; if/else, if, counter while with loop-carried variables, for over range(n)/(a,b)/(a,b,s) and over '
                        'lists; tuples; fixed-size lists with sum/index/len; min/max; conditional expressions), compiled by the real FPCoreCompiler (unsafe_int_cast on '
@@ -970,7 +1185,7 @@ def judge(rep, base, args, F, T, L):
     if tv is None:
         if L == F: rep.count('agree'); return
         rep.violation(f'{what} = {F[:70]} but the core evaluates to {L[:70]} (Lean FPCore evaluator; titanfp: {T[:50]})',
-                      dict(base, args=repr(args), fpy=F, fpcore=T, lean_fpcore=L, finding=pick_finding(shapes, 'eval', L))); return
+                      dict(base, args=repr(args), fpy=F, fpcore=T, lean_fpcore=L, finding=pick_finding(shapes, 'eval', L, F))); return
     # titanfp differs from F
     if L is not None and L == F:
         cls = 'reference-evaluator-deviation'
@@ -979,7 +1194,7 @@ def judge(rep, base, args, F, T, L):
         if len(devs) < 8: devs.append({'core': base['core'], 'args': repr(args), 'fpy': F, 'lean_fpcore': L, 'titanfp': T})
         return
     rep.violation(f'{what} = {F[:70]} but the core evaluates to {T[:70]} (titanfp)' + ('' if L is None else f' / {L[:70]} (Lean FPCore evaluator)'),
-                  dict(base, args=repr(args), fpy=F, fpcore=T, lean_fpcore=L, finding=pick_finding(shapes, 'eval', T)))
+                  dict(base, args=repr(args), fpy=F, fpcore=T, lean_fpcore=L, finding=pick_finding(shapes, 'eval', T, F)))
 
 # ------------------------------------------------------------------ (d) the property table
 def table_check(rep):
@@ -1033,6 +1248,28 @@ def table_check(rep):
             if want is False:
                 rep.violation(f'property table: titanfp reads the properties {p.props} emitted for {tok} as {tc!r}', dict(base, props=str(p.props)))
         lines.append('fpcprops ' + tok); meta.append((tok, p))
+    # the error arms of the table: what no context corresponds to is refused with NoSuchContextError, never mapped to some context
+    base = {'program': 'table', 'source': None, 'core': None, 'args': None, 'fpy': None, 'fpcore': None, 'finding': None}
+    for props in [{'precision': 'posit16'}, {'precision': 'binary32', 'round': 'stochastic'}, {'precision': ['fixed', -4, 16], 'overflow': 'trap'},
+                  {'precision': ['float', 'x', 3]}, {'precision': ['posit', 2, 16]}]:
+        rep.cov['evaluations'] += 1
+        try:
+            back = FPCoreContext(**props).to_context()
+            rep.violation(f'property table: to_context maps the unknown properties {props} to {str(back)[:80]}', dict(base, context=None, props=str(props)))
+        except NoSuchContextError as e:
+            rep.count('table:refused-unknown-props'); str(e)
+        except Exception as e:
+            rep.count('table:unknown-props-crash:' + type(e).__name__)
+    # with_prop: a copy with one property replaced
+    p0 = FPCoreContext.from_context(fp.FP32)
+    p1 = p0.with_prop('round', 'toZero')
+    rep.cov['evaluations'] += 1
+    if p0.props.get('round') != 'nearestEven' or p1.to_context() != fp.FP32.with_params(rm=fp.RM.RTZ) or 'toZero' not in repr(p1):
+        rep.violation(f'property table: with_prop(round, toZero) of {p0!r} gives {p1!r}', dict(base, context='FP32', props=str(p1.props)))
+    for bad in (3.0, 'binary32'):
+        try: FPCoreContext.from_context(bad); rep.count('table:from_context-accepts-non-context')
+        except TypeError: rep.count('table:from_context-typeerror')
+        except Exception as e: rep.count('table:from_context-' + type(e).__name__)
     outs = run_driver(lines)
     for (tok, p), m in zip(meta, outs):
         got = 'none' if p is None else 'some ' + show_props(p.props)
